@@ -46,6 +46,7 @@ type Engine struct {
 	inlCache   map[*ssa.Function]int
 	declOf     map[*ssa.Function]*ast.FuncDecl
 	tmForNames *TypeMap
+	gnnCache   map[*ssa.Global]bool
 }
 
 const prelude = `
@@ -254,10 +255,11 @@ type overlayGen struct {
 	sb      strings.Builder
 	imports map[string]string // alias -> path
 	qual    types.Qualifier
+	fset    *token.FileSet
 }
 
 func (eng *Engine) genOverlay(p *packages.Package, cf *ContractFile, fset *token.FileSet) ([]byte, error) {
-	g := &overlayGen{p: p, imports: map[string]string{}}
+	g := &overlayGen{p: p, imports: map[string]string{}, fset: fset}
 	// candidate imports: everything the package imports, plus explicit ones
 	cand := map[string]string{}
 	for _, imp := range p.Types.Imports() {
@@ -636,7 +638,8 @@ func (g *overlayGen) paramsFromNode(fi *funcInfo, node ast.Node, withResults boo
 		if !ok || v.Parent() == g.p.Types.Scope() {
 			return nil, "", fmt.Errorf("identifier %q not found at the clause position", name)
 		}
-		params = append(params, ClauseParam{Kind: pkLocal, Name: name, Pos: v.Pos()})
+		pp := g.fset.Position(v.Pos())
+		params = append(params, ClauseParam{Kind: pkLocal, Name: name, Pos: v.Pos(), File: pp.Filename, Off: pp.Offset})
 		decl = append(decl, name+" "+types.TypeString(v.Type(), g.qual))
 	}
 	return params, strings.Join(decl, ", "), nil
@@ -927,11 +930,14 @@ func (eng *Engine) paramAlloc(fn *ssa.Function, idx int) *ssa.Alloc {
 	return nil
 }
 
-func (eng *Engine) localAlloc(fn *ssa.Function, pos token.Pos) *ssa.Alloc {
+func (eng *Engine) localAlloc(fn *ssa.Function, p ClauseParam) *ssa.Alloc {
 	for _, b := range fn.Blocks {
 		for _, ins := range b.Instrs {
-			if a, ok := ins.(*ssa.Alloc); ok && a.Pos() == pos {
-				return a
+			if a, ok := ins.(*ssa.Alloc); ok && a.Pos() != token.NoPos {
+				pp := eng.fset.Position(a.Pos())
+				if pp.Filename == p.File && pp.Offset == p.Off {
+					return a
+				}
 			}
 		}
 	}
@@ -1399,4 +1405,42 @@ func (eng *Engine) loopMods(fn *ssa.Function, li *loopInfo, esc map[*ssa.Alloc]b
 		}
 	}
 	return ms
+}
+
+// globalNonNil: an interface-typed package-level variable whose only initialisation in the package's init is a
+// freshly made error value.
+func (eng *Engine) globalNonNil(g *ssa.Global) bool {
+	if _, ok := deref(g.Type()).Underlying().(*types.Interface); !ok {
+		return false
+	}
+	if v, ok := eng.gnnCache[g]; ok {
+		return v
+	}
+	res := false
+	if init := g.Pkg.Func("init"); init != nil {
+		for _, b := range init.Blocks {
+			for _, ins := range b.Instrs {
+				st, ok := ins.(*ssa.Store)
+				if !ok || st.Addr != g {
+					continue
+				}
+				switch v := st.Val.(type) {
+				case *ssa.Call:
+					if c := v.Call.StaticCallee(); c != nil {
+						n := c.String()
+						if n == "errors.New" || n == "fmt.Errorf" {
+							res = true
+						}
+					}
+				case *ssa.MakeInterface:
+					res = true
+				}
+			}
+		}
+	}
+	if eng.gnnCache == nil {
+		eng.gnnCache = map[*ssa.Global]bool{}
+	}
+	eng.gnnCache[g] = res
+	return res
 }
